@@ -249,6 +249,31 @@ fn read_h1(wire: &[u8], eof: bool) -> Result<(Vec<u8>, bool), String> {
     }
 }
 
+thread_local! { static LAST_PANIC_AT: std::cell::RefCell<String> = const { std::cell::RefCell::new(String::new()) }; }
+static HOOK: std::sync::Once = std::sync::Once::new();
+
+/// Runs a call into /repo's code; a panic in it is re-raised with the place it came from appended to its message
+/// (last four path components and the line), so that a finding can be told from another by its text.
+fn located<T>(f: impl FnOnce() -> T) -> T {
+    HOOK.call_once(|| {
+        std::panic::set_hook(Box::new(|info| {
+            let at = info.location().map(|l| {
+                let parts: Vec<&str> = l.file().split('/').collect();
+                format!("{}:{}", parts[parts.len().saturating_sub(4)..].join("/"), l.line())
+            });
+            LAST_PANIC_AT.with(|c| *c.borrow_mut() = at.unwrap_or_default());
+        }));
+    });
+    match std::panic::catch_unwind(std::panic::AssertUnwindSafe(f)) {
+        Ok(v) => v,
+        Err(p) => {
+            let msg = p.downcast_ref::<&str>().map(|s| s.to_string()).or_else(|| p.downcast_ref::<String>().cloned()).unwrap_or_else(|| "panic".into());
+            let at = LAST_PANIC_AT.with(|c| c.borrow().clone());
+            panic!("{msg} [at {at}]");
+        }
+    }
+}
+
 fn run(case: &Case, out: &mut Out) {
     let mut st = new_pair();
     let mut tls: Option<Tls> = None;
@@ -528,7 +553,7 @@ fn run(case: &Case, out: &mut Out) {
                     }
                 }
                 let body_end = wire.len();
-                match sozu_lib::protocol::mux::verif_c01::trailers_as_h1(&fields, if chunked { None } else { Some(total) }) {
+                match located(|| sozu_lib::protocol::mux::verif_c01::trailers_as_h1(&fields, if chunked { None } else { Some(total) })) {
                     Ok(tail) => wire.extend_from_slice(&tail),
                     Err(e) => {
                         out.note(&format!("invalid-case: handle_trailer refused the generated trailer block: {e}"));
@@ -592,7 +617,7 @@ fn run(case: &Case, out: &mut Out) {
                 }
                 let chunks: Vec<Vec<u8>> = cs.iter().enumerate().map(|(i, n)| pattern(*n, seed + i as u64)).collect();
                 let body: Vec<u8> = chunks.concat();
-                let (rounds, left) = sozu_lib::protocol::mux::verif_c01::convert_body(&ws, max, 5, &chunks, ended);
+                let (rounds, left) = located(|| sozu_lib::protocol::mux::verif_c01::convert_body(&ws, max, 5, &chunks, ended));
                 let mut toks = vec![];
                 let mut got: Vec<u8> = vec![];
                 let mut end_seen = false;
@@ -699,7 +724,7 @@ fn run(case: &Case, out: &mut Out) {
                     resp.extend_from_slice(format!("{k}: {v}\r\n").as_bytes());
                 }
                 resp.extend_from_slice(b"\r\n");
-                let (rounds, left) = match sozu_lib::protocol::mux::verif_c01::convert_h1_response(&ws, max, 5, &resp) {
+                let (rounds, left) = match located(|| sozu_lib::protocol::mux::verif_c01::convert_h1_response(&ws, max, 5, &resp)) {
                     Ok(x) => x,
                     Err(e) => {
                         out.viol("h2t-parse", &format!("kawa did not parse the generated chunked response with {nf} trailer fields: {e}"));
